@@ -69,6 +69,9 @@ def scenarios(tier):
         for o in (False, 'raise'):
             for flag in (False, True):
                 out.append(Scenario('runtime', hook=h, out=o, flag=flag, nodet=True))
+        # ... followed by a set of the same hook that is REFUSED (the name cannot be imported) and carries the ignore flag:
+        # the refusal must leave the installed hook and its flag as they were
+        out.append(Scenario('runtime', hook=h, out='raise', flag=False, refused=True, nodet=True))
     return out
 
 
@@ -116,6 +119,12 @@ def _run_runtime(scn, ch, res):
         rq = world.request('set', name='a', options={'hooks.%s' % scn.hook: '%s,%s' % (fn, 'true' if scn.flag else 'false')})
         res.check('C14.accepted', rq.ok(), lambda: 'set hooks.%s refused: %r' % (scn.hook, rq.reply()), where='commands.set')
         world.run(until=lambda w: w.slot() is None, horizon=2)
+        if scn.p.get('refused'):
+            rq2 = world.request('set', name='a', options={'hooks.%s' % scn.hook: 'no_such_module_vt.fn,true'})
+            res.check('C14.bad_hook_refused', rq2.replied() and not rq2.ok(),
+                      lambda: 'set hooks.%s to a name that cannot be imported answered %r' % (scn.hook, rq2.reply()),
+                      where='watcher.set_opt/hooks')
+            world.run(until=lambda w: w.slot() is None, horizon=2)
         world.request('start', name='a')
         world.run(until=lambda w: w.slot() is None and not w.stopping_processes(), horizon=4 * G + 2.0)
         world.run(horizon=G + 0.2)
